@@ -71,6 +71,39 @@ def _is_simple_helper(h) -> bool:
     return True
 
 
+def _specialise_kwargs(h, call: ast.Call):
+    """a helper `def h(a, b, **kw)` that does nothing with kw but forward it (`f(.., **kw)`), called with explicit
+    keywords: the copy `def h(a, b, *, k1, k2)` with `f(.., k1=k1, k2=k2)` - what this call site executes"""
+    kw = h.args.kwarg.arg
+    uses = [x for x in ast.walk(h) if isinstance(x, ast.Name) and x.id == kw]
+    fwd = [k for c in ast.walk(h) if isinstance(c, ast.Call) for k in c.keywords if k.arg is None and isinstance(k.value, ast.Name) and k.value.id == kw]
+    if not fwd or len(uses) != len(fwd):
+        return None
+    if any(k.arg is None for k in call.keywords) or any(isinstance(a, ast.Starred) for a in call.args):
+        return None
+    named = {a.arg for a in h.args.args} | {a.arg for a in h.args.kwonlyargs}
+    surplus = [k.arg for k in call.keywords if k.arg not in named]
+    locals_ = {x.id for x in ast.walk(h) if isinstance(x, ast.Name) and isinstance(x.ctx, ast.Store)}
+    if any(s in locals_ for s in surplus):
+        return None
+    new = copy_fn(h)
+    new.args.kwarg = None
+    for s_ in surplus:
+        new.args.kwonlyargs.append(ast.arg(arg=s_, annotation=None))
+        new.args.kw_defaults.append(None)
+    for c in ast.walk(new):
+        if isinstance(c, ast.Call):
+            out = []
+            for k in c.keywords:
+                if k.arg is None and isinstance(k.value, ast.Name) and k.value.id == kw:
+                    out += [ast.keyword(arg=s_, value=ast.Name(id=s_, ctx=ast.Load())) for s_ in surplus]
+                else:
+                    out.append(k)
+            c.keywords = out
+    ast.fix_missing_locations(new)
+    return new
+
+
 def _body_wo_doc(h):
     body = list(h.body)
     if body and isinstance(body[0], ast.Expr) and isinstance(body[0].value, ast.Constant) and isinstance(body[0].value.value, str):
@@ -264,6 +297,9 @@ def method_values_to_calls(fn):
             v = st.value
             if isinstance(v, ast.Attribute) and isinstance(v.value, ast.Name) and v.value.id in ("self", "cls") and v.attr.startswith("_") and not v.attr.startswith("__"):
                 binds.setdefault(st.targets[0].id, []).append(v)
+            elif isinstance(v, ast.Attribute) and isinstance(v.value, ast.Call) and isinstance(v.value.func, ast.Name) and v.value.func.id == "super":
+                # hook = super(C, C).groom ... hook(x): the inherited method, called through a local
+                binds.setdefault(st.targets[0].id, []).append(v)
             else:
                 other.add(st.targets[0].id)
         elif isinstance(st, (ast.AugAssign, ast.AnnAssign)) and isinstance(st.target, ast.Name):
@@ -368,6 +404,8 @@ def _inline_once(fn, resolver, keep) -> bool:
         if r is None:
             return None
         h, recv = r
+        if isinstance(h, ast.FunctionDef) and h.args.kwarg is not None and not h.args.vararg:
+            h = _specialise_kwargs(h, call) or h
         if h is fn or not _is_simple_helper(h) or (keep and keep(h.name)):
             return None
         if h.name == fn.name:
@@ -628,6 +666,11 @@ def ifexp_assignments_to_if(fn):
             for h in getattr(st, "handlers", []) or []:
                 h.body = do_block(h.body)
             tgt = val = None
+            # `x = <obj>.<attr> or <call>(...)` is `x = <obj>.<attr> if <obj>.<attr> else <call>(...)` (an attribute
+            # read is repeatable); only this narrow form - `a or None` defaults stay expressions
+            v0 = getattr(st, "value", None)
+            if isinstance(st, (ast.Assign, ast.AnnAssign)) and isinstance(v0, ast.BoolOp) and isinstance(v0.op, ast.Or) and len(v0.values) == 2 and isinstance(v0.values[0], ast.Attribute) and isinstance(v0.values[0].value, ast.Name) and isinstance(v0.values[1], ast.Call):
+                st.value = ast.copy_location(ast.IfExp(test=v0.values[0], body=v0.values[0], orelse=v0.values[1]), v0)
             if isinstance(st, ast.Assign) and len(st.targets) == 1 and isinstance(st.value, ast.IfExp):
                 tgt, val = st.targets[0], st.value
             elif isinstance(st, ast.AnnAssign) and isinstance(st.value, ast.IfExp):
@@ -713,8 +756,62 @@ def getattr_consts_to_attributes(fn):
     return _set_parents(fn)
 
 
+def next_loops_to_for(fn):
+    """in place:   it = <expr>                      for v in <expr>:
+                   while True:                  ->       BODY
+                       v = next(it, None)
+                       if v is None: break
+                       BODY
+    when `it` is used nowhere else (the sentinel form of a plain iteration; BODY never sees v = None)"""
+
+    def uses(name):
+        return sum(1 for x in ast.walk(fn) if isinstance(x, ast.Name) and x.id == name)
+
+    def do_block(stmts):
+        out = []
+        i = 0
+        while i < len(stmts):
+            st = stmts[i]
+            for fld in ("body", "orelse", "finalbody"):
+                sub = getattr(st, fld, None)
+                if isinstance(sub, list) and sub and isinstance(sub[0], ast.stmt) and not isinstance(st, (ast.FunctionDef, ast.ClassDef)):
+                    setattr(st, fld, do_block(sub))
+            for h in getattr(st, "handlers", []) or []:
+                h.body = do_block(h.body)
+            nxt = stmts[i + 1] if i + 1 < len(stmts) else None
+            if (isinstance(st, ast.Assign) and len(st.targets) == 1 and isinstance(st.targets[0], ast.Name)
+                    and isinstance(nxt, ast.While) and isinstance(nxt.test, ast.Constant) and nxt.test.value is True and not nxt.orelse and len(nxt.body) >= 2):
+                it = st.targets[0].id
+                b0, b1 = nxt.body[0], nxt.body[1]
+                ok = (isinstance(b0, ast.Assign) and len(b0.targets) == 1 and isinstance(b0.targets[0], ast.Name)
+                      and isinstance(b0.value, ast.Call) and isinstance(b0.value.func, ast.Name) and b0.value.func.id == "next" and len(b0.value.args) == 2
+                      and isinstance(b0.value.args[0], ast.Name) and b0.value.args[0].id == it and isinstance(b0.value.args[1], ast.Constant) and b0.value.args[1].value is None)
+                if ok:
+                    v = b0.targets[0].id
+                    t = b1.test if isinstance(b1, ast.If) else None
+                    ok = (isinstance(b1, ast.If) and not b1.orelse and len(b1.body) == 1 and isinstance(b1.body[0], ast.Break)
+                          and isinstance(t, ast.Compare) and len(t.ops) == 1 and isinstance(t.ops[0], ast.Is) and isinstance(t.left, ast.Name) and t.left.id == v
+                          and isinstance(t.comparators[0], ast.Constant) and t.comparators[0].value is None)
+                if ok and uses(it) == 2:
+                    src = st.value
+                    if isinstance(src, ast.Call) and isinstance(src.func, ast.Name) and src.func.id == "iter" and len(src.args) == 1:
+                        src = src.args[0]
+                    loop = ast.For(target=ast.Name(id=v, ctx=ast.Store()), iter=src, body=do_block(nxt.body[2:]) or [ast.Pass()], orelse=[])
+                    out.append(ast.copy_location(loop, nxt))
+                    i += 2
+                    continue
+            out.append(st)
+            i += 1
+        return out
+
+    fn.body = do_block(fn.body)
+    ast.fix_missing_locations(fn)
+    return _set_parents(fn)
+
+
 def canonical(fn, resolver=None, keep=None, depth=2):
     new = inline(fn, resolver, depth, keep) if resolver is not None else copy_fn(fn)
+    new = next_loops_to_for(new)
     new = loops_to_comprehensions(new)
     new = ifexp_assignments_to_if(new)
     new = formats_to_fstrings(new)
